@@ -233,6 +233,7 @@ func step(f func() error) (res string) {
 }
 
 func registerVoucherKinds(c *core.Ctx) {
+	registerExtendKind(c)
 	c.Register(&core.Kind{Name: "voucher.verify", Eval: func(p core.Params) (string, string) {
 		kalg, _ := strconv.ParseInt(p["kalg"], 10, 64)
 		line := "voucher.verify b:" + p["voucher"] + " b:" + p["secret"] + " z:" + zhex(kalg) + " b:" + p["kval"]
@@ -317,6 +318,7 @@ func RunC04(c *core.Ctx) {
 	ctx, cancel := context.WithTimeout(context.Background(), 30*time.Minute)
 	defer cancel()
 	for _, cf := range cfgs {
+		doExtendCases(c, cf.spec, cf.enc)
 		e, err := env.New(WorkDir(), cf.spec)
 		if err != nil {
 			c.Note("env failed: %v", err)
